@@ -239,7 +239,7 @@ abel.rbasex.rbasex_transform(Q, basis_dir=d)
 '''
 
 
-def strace_guard(root):
+def strace_guard(root, _second=False):
     """How does each basis file of the library's own save paths come into being?
     Returns {basis file: dict(inplace=[sizes of write syscalls on the .npy path itself],
     renamed_from=temp name or None, temp_bytes=bytes written to that temp file, size=final size)}.
@@ -274,13 +274,24 @@ def strace_guard(root):
             e = info.setdefault(f, dict(renamed_from=None, temp_bytes=0, temp_writes=0))
             e['inplace'] = written.get(f, [])
             e['size'] = os.path.getsize(os.path.join(d, f))
+    # the atomic-save theorem lets every writer fill a temporary file OF ITS OWN: a second
+    # process saving the same basis into the same directory must use another temporary name
+    if not _second:
+        shutil.rmtree(d, ignore_errors=True)
+        info2, err2 = strace_guard(root, _second=True)
+        for f, e in info.items():
+            e2 = (info2 or {}).get(f)
+            e['temp_name_private_to_writer'] = bool(e2 and e.get('renamed_from') and e2.get('renamed_from')
+                                                    and e2['renamed_from'] != e['renamed_from'])
     return info, None
 
 
 def not_atomic(info):
-    """basis files that did not appear by rename of a completely written temp file"""
+    """basis files that did not appear by rename of a completely written temp file
+    private to the writing process"""
     return sorted(f for f, e in info.items()
-                  if e.get('inplace') or e['renamed_from'] is None or e['temp_bytes'] != e.get('size'))
+                  if e.get('inplace') or e['renamed_from'] is None or e['temp_bytes'] != e.get('size')
+                  or e.get('temp_name_private_to_writer') is False)
 
 
 def zero_gap_probe(env, worker, rng):
@@ -528,11 +539,12 @@ def run(ctx):
         if bad:
             if zero_gap_probe(env, worker, rng):
                 hits.append(Hit('atomic_save_safe', 'C08:basis-file-not-saved-atomically',
-                                'basis files %r do not appear by rename of a completely written temporary file (in-place '
-                                'writes: %r): the atomic-save theorem does not cover them; numpy.save needs three write '
+                                'basis files %r do not appear by rename of a completely written temporary file that is private '
+                                'to the writing process (in-place writes / shared temporary name: %r): the atomic-save theorem does '
+                                'not cover them; numpy.save needs three write '
                                 'syscalls, so two concurrent savers and a reader admit the schedule of the refuted three-chunk '
                                 'theorem, and the zero-gap file it leaves behind is loaded and changes the result'
-                                % (bad, {f: info[f].get('inplace') for f in bad}),
+                                % (bad, {f: (info[f].get('inplace'), info[f].get('renamed_from'), info[f].get('temp_name_private_to_writer')) for f in bad}),
                                 CHUNK_SNIPPET, dict(info=info)))
             else:
                 broken.append(('strace', 'basis files not saved atomically: %r' % bad))
